@@ -759,6 +759,23 @@ impl<'a> VisitMut for Rw<'a> {
                     }
                 }
             }
+            // `&mut x[e]` => `x.index_mut(e)` (a reborrow of the returned reference)
+            if let Expr::Reference(rf) = e {
+                if rf.mutability.is_some() && is_ovl(&rf.expr, &self.index_ovl) {
+                    if let Expr::Index(ix) = &*rf.expr {
+                        let base = ix.expr.clone();
+                        let idx = ix.index.clone();
+                        self.log.add("R16", "index-mut-ref", format!("&mut {} => {}.index_mut({})", squash(&rf.expr.to_token_stream().to_string()), squash(&base.to_token_stream().to_string()), squash(&idx.to_token_stream().to_string())));
+                        *e = syn::parse2(quote!( #base.index_mut(#idx) )).unwrap();
+                        if let Expr::MethodCall(m) = e {
+                            for arg in m.args.iter_mut() {
+                                self.visit_expr_mut(arg);
+                            }
+                        }
+                        return;
+                    }
+                }
+            }
             if is_ovl(e, &self.index_ovl) {
                 if let Expr::Index(ix) = e {
                     let base = ix.expr.clone();
@@ -1455,6 +1472,8 @@ fn main() {
                     let (l, r) = rest.split_once("=>").unwrap_or_else(|| die("path: need =>"));
                     let f: Vec<String> = l.trim().split("::").filter(|s| !s.is_empty()).map(|s| s.trim().to_string()).collect();
                     let t: Vec<String> = r.trim().split("::").filter(|s| !s.is_empty()).map(|s| s.trim().to_string()).collect();
+                    // a later rule with the same left-hand side replaces the earlier one (otherwise the first match wins)
+                    ctx.path_rw.retain(|(ff, _)| *ff != f);
                     ctx.path_rw.push((f, t));
                 },
                 "method" => {
